@@ -51,7 +51,7 @@ ASSUMPTIONS = [
 ]
 BOUNDS = {
     "quick": {"styles": "uniform+single-deviation", "overrides": "singles", "free_order_upto": 4, "early_bound": 0, "early_bound_small": 1, "deviations_large": 1, "baton_preemptions": 2},
-    "thorough": {"styles": "all 4^k", "overrides": "singles+pairs", "free_order_upto": 5, "early_bound": 1, "early_bound_small": 2, "deviations_large": 2, "baton_preemptions": 3},
+    "thorough": {"styles": "all 4^k for shapes with <= 3 custom coordinates, quick set otherwise", "overrides": "singles+pairs", "free_order_upto": 5, "early_bound": 1, "early_bound_small": 2, "deviations_large": 2, "baton_preemptions": 3},
 }
 TIME_CAP = {"quick": 150, "thorough": 1500}
 
@@ -77,7 +77,7 @@ STYLES = ("default", "sync", "async", "nested")
 
 def _style_assignments(coords, tier):
     k = len(coords)
-    if tier == "thorough":
+    if tier == "thorough" and k <= 3:
         for combo in itertools.product(STYLES, repeat=k):
             if any(c != "default" for c in combo):
                 yield combo
